@@ -406,6 +406,66 @@ def gen_shapes(rng, n):
     return out
 
 
+def impl_plan_seq(shapes):
+    """several messages of ONE catalog through ONE checker object, in order (as check_messages does): the recorded check_args
+    invocations per message, or 'crash ...'"""
+    kind = shapes[0]['kind']
+    chk = _checker()
+    kc = chk._message_format_checkers[kind]
+    calls = []
+
+    def rec(message, src_loc, src_fmt, dst_loc, dst_fmt, *, omitted_int_conv_ok=False):
+        calls.append('%s -> %s %s' % (src_loc, dst_loc, 'omit-ok' if omitted_int_conv_ok else 'strict'))
+    kc.check_args = rec
+    sh0 = shapes[0]
+    ctx = types.SimpleNamespace(is_template=sh0['template'], encoding=('UTF-8' if sh0['encoding'] else None), plural_preimage=sh0['preimage'])
+    out = []
+    for sh in shapes:
+        del calls[:]
+        flags = types.SimpleNamespace(fuzzy=sh['fuzzy'], range_min=sh['rmin'], range_max=(1e999 if sh['rmax'] == 10 ** 9 else sh['rmax']))
+        try:
+            kc.check_message(ctx, make_message(sh), flags)
+        except Exception as e:  # noqa
+            out.append('crash ' + type(e).__name__)
+            continue
+        out.append(' | '.join(calls) if calls else 'none')
+    return out
+
+
+def gen_sequences(rng, n):
+    """messages of one catalog (one kind, one preimage table, one template/encoding context) whose range flags share one bound and
+    differ in the other, or coincide, or are absent; the verdict on a message must not depend on the messages checked before it"""
+    out = []
+    for _ in range(n):
+        base = gen_shapes(rng, 1)[0]
+        while base.get('msgid_plural') is None or not base['preimage']:
+            base = gen_shapes(rng, 1)[0]
+        lo = rng.choice([0, 1, 2, 5, 21, 100])
+        hi = rng.choice([1, 2, 4, 22, 30, 199, 10 ** 9])
+        bounds = [(0, 10 ** 9), (lo, hi), (rng.choice([0, 1, 2, 5, 21, 100]), hi), (lo, rng.choice([1, 2, 4, 22, 30, 199, 10 ** 9])), (lo, hi)]
+        rng.shuffle(bounds)
+        seq = []
+        for (a, b) in bounds[:rng.randrange(2, 6)]:
+            sh = gen_shapes(rng, 1)[0]
+            while sh.get('msgid_plural') is None or sh['kind'] != base['kind']:
+                sh = gen_shapes(rng, 1)[0]
+            sh.update(kind=base['kind'], template=base['template'], encoding=base['encoding'], preimage=base['preimage'], rmin=a, rmax=b)
+            if rng.random() < 0.5:
+                sh.update(msgid=base['msgid'], msgid_plural=base['msgid_plural'], msgstr_plural=dict(base['msgstr_plural']), fuzzy=base['fuzzy'])
+            seq.append(sh)
+        out.append(seq)
+    return out
+
+
+def seq_verdict(seq):
+    alone = [impl_plan_wrap(sh) for sh in seq]
+    together = impl_plan_seq(seq)
+    for i, (a, t) in enumerate(zip(alone, together)):
+        if a != t:
+            return 'message %d of the sequence: check_args invocations %r when it is checked after the others, %r when it is checked alone' % (i, t, a)
+    return None
+
+
 def impl_plan_wrap(shape):
     sh = dict(shape)
     if sh['rmax'] == 10 ** 9:
@@ -466,6 +526,16 @@ def check(ctx):
             ctx.fail('check-message-crash', {'shape': {k: (v if k != 'preimage' else str(v)[:80]) for k, v in sh.items()}}, r)
         elif m != r:
             ctx.disagree('plan_message', {'shape': {k: (v if k != 'preimage' else str(v)[:80]) for k, v in sh.items()}}, m, r)
+    # ---- several messages through one checker object: the verdict on a message is a function of that message
+    seqs = gen_sequences(rng, 1500 if ctx.quick() else 30000)
+    sv = common.pmap('harness.c14', 'seq_verdict', seqs)
+    ctx.evaluations += len(seqs)
+    for seq, v in zip(seqs, sv):
+        ctx.count('sequence')
+        if isinstance(v, str) and v != 'timeout':
+            ctx.fail('message-history-dependence', {'sequence': [{k: (v2 if k != 'preimage' else str(v2)[:120]) for k, v2 in sh.items()} for sh in seq]}, v)
+        else:
+            ctx.nontriv(('seq', len(seq), seq[0]['kind'], seq[0]['rmin'], seq[0]['rmax']))
     overd = common.pmap('harness.c14', 'oracle_omit', sorted(set(pairs)))
     ctx.evaluations += len(overd)
     for p, v in zip(sorted(set(pairs)), overd):
@@ -488,5 +558,5 @@ def check(ctx):
         checker_cmd='tools/build.sh (coq_makefile + make: coqc on Props/C14.v) then coqc Audit_C14.v (Print Assumptions)',
         rule='per format kind: (msgid, msgstr) pairs built from directive pools (numbered/named and unnumbered), msgstr = msgid permuted / one dropped / one added / one retyped / unrelated; '
              'signatures from the real parsers; model check_args vs the real check_args (both values of omitted_int_conv_ok); message shapes (template, fuzzy, charset, plural forms, '
-             'preimages, range flags, invalid strings) model plan_message vs recorded check_args invocations of the real check_message; oracle: full check_message on plain messages flags iff '
+             'preimages, range flags, invalid strings) model plan_message vs recorded check_args invocations of the real check_message; sequences of 2-5 plural messages of one catalog (range flags sharing one bound and differing in the other) through ONE checker object: the invocations for each message must equal those for the message checked alone; oracle: full check_message on plain messages flags iff '
              'the reference signatures differ. non-trivial = distinct case with at least one diagnostic / invocation')
